@@ -988,6 +988,9 @@ func (c *Client) doClose() {
 func (c *Client) reset() {
 	c.doClose()
 
+	// the connection that failed, if any, has just been closed
+	c.mustClose = false
+
 	c.state = clientStateInitial
 	c.session = ""
 	c.sender = nil
